@@ -102,30 +102,151 @@ theorem accessors (t : Int) : observe (validState t) = Spec.observe (some t) := 
 
 theorem getTime_valid (t : Int) : getTime (validState t) = some t := rfl
 
-/-- time.Date composes exactly like MakeDate(MakeDay, MakeTime), for ALL integer fields -/
+/-- time.Date composes exactly like MakeDate(MakeDay, MakeTime), for ALL integer fields
+    (month overflow into years, negative fields, ms/s/min/h carries into days). -/
 theorem make_compose (y m d h mi s ms : Int) :
     goUnixMilli (goDate y (m + 1) d h mi s (ms * 1000000)) =
-      Spec.MakeDate (Spec.MakeDay y m d) (Spec.MakeTime h mi s ms) := by
-  unfold goDate
-  simp only [goNorm12, goNorm60, goNorm24, goNorm1e9, Int.add_sub_cancel]
-  have hb := daysBefore_monthStart (m % 12) (y + m / 12) (by omega)
-  unfold goUnixMilli Spec.MakeDate Spec.MakeDay Spec.MakeTime absToUnix goDiv
-  simp only [goDaysSinceEpoch_eq]
-  simp only [Int.add_sub_cancel] at hb
-  generalize Spec.monthStart (m % 12) (if Spec.DaysInYear (y + m / 12) = 366 then 1 else 0) = MS at *
-  generalize Spec.DayFromYear (y + m / 12) = DY at *
-  have e1 : ms * 1000000 / 1000000000 = ms / 1000 := by omega
-  have e2 : ms * 1000000 % 1000000000 / 1000000 = ms % 1000 := by omega
-  have e3 : ms * 1000000 % 1000000000 ≥ 0 := by omega
-  rw [if_pos e3, e1, e2]
-  generalize goDaysBefore (m % 12) = GB at *
-  split at hb <;> rename_i hc
-  · simp only [hc, if_true]; omega
-  · simp only [hc, Bool.false_eq_true, if_false]; omega
+      Spec.MakeDate (Spec.MakeDay y m d) (Spec.MakeTime h mi s ms) := Lem.make_compose y m d h mi s ms
 
 /-- Date.UTC / `new Date(y,m,…)` on converted fields = MakeDate(MakeDay, MakeTime), all of ℤ^7 -/
 theorem dateCore_eq (y m d h mi s ms : Int) :
     dateCore y m d h mi s ms = Spec.MakeDate (Spec.MakeDay y m d) (Spec.MakeTime h mi s ms) :=
   make_compose y m d h mi s ms
+
+
+-- ================================================================ setters
+
+/-- every setUTC* body = the ES5 recomposition, for every integer time value and all integer arguments -/
+theorem setter_core (k : Setter) (t : Int) (vs : List Int) (hk : k ≠ .time) (h1 : 1 ≤ vs.length) (h2 : vs.length ≤ k.limit) :
+    some (setCore k (stateTime t) vs) = Spec.setUTCRaw (toSpec k) (some t) (vs.map fvInt) :=
+  Lem.setter_core k t vs hk h1 h2
+
+/-- dateObject.Set / `new Date(t)` / setTime(t) for an integral double: the valid state of t.
+    `DivExact t` (float64 t/1000 truncates to t quo 1000) is the one arithmetic fact not proved here;
+    it is evaluated by the exact F64 model on every sample of the correspondence run. -/
+theorem set_int (d : DateObj) (hd : d.isNaN = false) (t : Int) (hr : t.natAbs < 2^53) (hdiv : DivExact t) :
+    d.set (ofInt t) = validState t := Lem.set_int d hd t hr hdiv
+
+theorem newDate_int (t : Int) (hr : t.natAbs < 2^53) (hdiv : DivExact t) : newDate (ofInt t) = validState t :=
+  Lem.set_int _ rfl t hr hdiv
+
+example : DivExact 1419993358860123 := by decide +kernel
+example : DivExact (-8639999999999999) := by decide +kernel
+example : DivExact (-1) := by decide +kernel
+
+theorem setUTC_step (k : Setter) (t : Int) (vs : List Int) (h1 : 1 ≤ vs.length) (h2 : vs.length ≤ k.limit)
+    (hsm : ∀ v ∈ vs, v.natAbs < 2^53) (t' : Int)
+    (ht' : Spec.setUTCRaw (toSpec k) (some t) (vs.map ofInt) = some t') (hr : t'.natAbs < 2^53) (hdiv : DivExact t') :
+    setUTC k (validState t) (vs.map ofInt) = (validState t', some t') :=
+  Lem.setUTC_step k t vs h1 h2 hsm t' ht' hr hdiv
+
+/-- all histories of setUTC*/setTime calls with integral arguments, by induction on the history:
+    while every intermediate value stays in the ES5 range (`Good`), otto's object state and every
+    return value are the ES5 ones. -/
+theorem setter_histories (hist : List (Setter × List Int)) (t : Int) (hg : Good t hist) :
+    ∃ tf, (Spec.runSetters (some t) (hist.map liftS)).1 = some tf ∧
+      runSetters (validState t) (hist.map liftM) = (validState tf, (Spec.runSetters (some t) (hist.map liftS)).2) :=
+  Lem.setter_histories hist t hg
+
+/-- `Good` is satisfiable by a non-trivial history: d = new Date(0); d.setUTCHours(5); d.setTime(1000);
+    d.setUTCFullYear(2000, 13, -3) -/
+example : Good 0 [(.hour, [5]), (.time, [1000]), (.year, [2000, 13, -3])] :=
+  ⟨by decide, by decide, by decide, 18000000, by decide +kernel, by decide, by decide +kernel,
+   by decide, by decide, by decide, 1000, by decide +kernel, by decide, by decide +kernel,
+   by decide, by decide, by decide, 980640001000, by decide +kernel, by decide, by decide +kernel, trivial⟩
+
+-- ================================================================ invalid dates
+
+/-- §15.9.5: an invalid date answers NaN to valueOf/getTime and every getUTC*, and null to toJSON;
+    holds for EVERY object state with isNaN set, whatever the other fields contain. -/
+theorem invalid_sticky (d : DateObj) (h : d.isNaN = true) :
+    observe d = Spec.observe none ∧ getTime d = none ∧ toJSON d = .null := by
+  simp [observe, Spec.observe, getTime, toJSON, h]
+
+/-- `new Date(NaN | ±Infinity)` is invalid, like TimeClip(ToNumber(v)) -/
+theorem newDate_nonfinite (v : FV) (h : Spec.field? v = none) :
+    (newDate v).isNaN = true ∧ observe (newDate v) = Spec.observe (Spec.clipNumber v) := by
+  cases v with
+  | nan => simp [newDate, DateObj.set, epochToTime, isNaN, observe, Spec.observe, Spec.clipNumber, Spec.field?]
+  | inf s => simp [newDate, DateObj.set, epochToTime, isNaN, isInf, observe, Spec.observe, Spec.clipNumber, Spec.field?]
+  | fin s m e => simp [Spec.field?] at h
+
+/-- model fact behind two findings: no setter (not even setTime / setUTCFullYear) ever revives an invalid date -/
+theorem invalid_absorbing_model (k : Setter) (d : DateObj) (args : List FV) (h : d.isNaN = true) :
+    (setUTC k d args).1.isNaN = true := by
+  cases k <;> simp [setUTC, h, DateObj.set] <;> split <;> simp
+
+/-- Date.UTC / constructor: a NaN or ±Infinity among the supplied fields gives NaN on both sides -/
+theorem dateUTC_nan (args : List FV) (i : Nat) (hi : i < 7) (x : FV) (hx : args[i]? = some x) (hn : Spec.field? x = none) :
+    newDateTime args = none ∧ Spec.dateUTC args = none := by
+  have hx' : isNaN x || isInf x = true := by
+    cases x <;> simp [Spec.field?, isNaN, isInf] at hn ⊢
+  have : i = 0 ∨ i = 1 ∨ i = 2 ∨ i = 3 ∨ i = 4 ∨ i = 5 ∨ i = 6 := by omega
+  constructor
+  · unfold newDateTime
+    rcases this with h | h | h | h | h | h | h <;> subst h <;> simp only [hx] <;> (repeat' split) <;> simp_all
+  · unfold Spec.dateUTC Spec.dateUTCRaw
+    rcases this with h | h | h | h | h | h | h <;> subst h <;> simp only [hx, hn] <;> (repeat' split) <;> simp_all
+
+/-- a setUTC* call whose (used) arguments are missing or contain NaN/±Infinity invalidates the date on both sides -/
+theorem setter_nan (k : Setter) (t : Int) (args : List FV) (hk : k ≠ .time) (hlen : args.length ≤ k.limit)
+    (hbad : args = [] ∨ ∃ x ∈ args, Spec.field? x = none) :
+    setUTC k (validState t) args = (invalidDateObject, none) ∧ Spec.setUTC (toSpec k) (some t) args = none := by
+  have htake : args.take k.limit = args := List.take_of_length_le hlen
+  have hna : ∀ as : List FV, (∃ x ∈ as, Spec.field? x = none) → numberArgs as = none := by
+    intro as
+    induction as with
+    | nil => intro ⟨x, hx, _⟩; simp at hx
+    | cons a as ih =>
+      intro ⟨x, hx, hn⟩
+      simp only [List.mem_cons] at hx
+      rcases hx with hx | hx
+      · subst hx
+        cases x <;> simp [Spec.field?] at hn <;> simp [numberArgs, numberArg]
+      · have := ih ⟨x, hx, hn⟩
+        simp only [numberArgs, this]
+        split <;> simp_all
+  constructor
+  · unfold setUTC
+    rcases hbad with hb | hb
+    · subst hb; cases k <;> simp [validState] at hk ⊢
+    · have := hna args hb
+      cases k <;> simp [validState, htake, this] at hk ⊢
+  · unfold Spec.setUTC Spec.setUTCRaw
+    rcases hbad with hb | hb
+    · subst hb; cases k <;> simp [toSpec, Spec.argOr] at hk ⊢
+    · obtain ⟨x, hx, hn⟩ := hb
+      rcases args with _ | ⟨a, _ | ⟨b, _ | ⟨c, _ | ⟨d, _ | ⟨e, rest⟩⟩⟩⟩⟩ <;> cases k <;>
+        simp [Setter.limit] at hlen hk hx <;>
+        simp [toSpec, Spec.argOr] <;> (repeat' split) <;> (first | (simp_all; done) | (rcases hx with rfl | rfl | rfl | rfl <;> simp_all))
+
+
+-- ================================================================ deviation regions: kernel-checked witnesses
+
+/-- Dev no_timeclip: new Date(8.64e15 + 1) stays valid -/
+example : getTime (newDate (.fin false 8640000000000001 0)) = some 8640000000000001 ∧
+    Spec.clipNumber (.fin false 8640000000000001 0) = none := by decide +kernel
+/-- Dev no_timeclip: Date.UTC(1e6, 0) -/
+example : newDateTime [.fin false 1000000 0, zero] = some 31494784780800000 ∧
+    Spec.dateUTC [.fin false 1000000 0, zero] = none := by decide +kernel
+/-- Dev twodigit_fraction: Date.UTC(99.5, 0)  (99.5 = 199·2^-1) -/
+example : newDateTime [.fin false 199 (-1), zero] = some (-59042995200000) ∧
+    Spec.dateUTC [.fin false 199 (-1), zero] = some 915148800000 := by decide +kernel
+/-- Dev twodigit_fraction: Date.UTC(-0.5, 0) -/
+example : newDateTime [.fin true 1 (-1), zero] ≠ Spec.dateUTC [.fin true 1 (-1), zero] := by decide +kernel
+/-- Dev iso_invalid_no_throw: new Date(NaN).toISOString() -/
+example : toISOString (newDate .nan) = .ok [73, 110, 118, 97, 108, 105, 100, 32, 68, 97, 116, 101] ∧
+    Spec.toISOString (Spec.clipNumber .nan) = .rangeError := by decide +kernel
+/-- Dev iso_expanded_year: new Date(253402300800000).toISOString() is "10000-01-01T00:00:00.000Z", ES5 "+010000-01-01T00:00:00.000Z" -/
+example : toISOString (newDate (.fin false 253402300800000 0)) = .ok ([49,48,48,48,48] ++ [45,48,49,45,48,49,84,48,48,58,48,48,58,48,48,46,48,48,48,90]) ∧
+    Spec.toISOString (Spec.clipNumber (.fin false 253402300800000 0)) = .ok ([43,48,49,48,48,48,48] ++ [45,48,49,45,48,49,84,48,48,58,48,48,58,48,48,46,48,48,48,90]) := by decide +kernel
+/-- … and the produced string does not parse back -/
+example : parseOfISO (newDate (.fin false 253402300800000 0)) = none := by decide +kernel
+/-- Dev setfullyear_invalid: d = new Date(NaN); d.setUTCFullYear(2000) -/
+example : (setUTC .year (newDate .nan) [.fin false 2000 0]).2 = none ∧
+    Spec.setUTC .year (Spec.clipNumber .nan) [.fin false 2000 0] = some 946684800000 := by decide +kernel
+/-- Dev settime_sticky_invalid: d = new Date(NaN); d.setTime(5) returns 5 but d.getTime() is NaN -/
+example : (setUTC .time (newDate .nan) [.fin false 5 0]).2 = some 5 ∧ getTime (setUTC .time (newDate .nan) [.fin false 5 0]).1 = none ∧
+    Spec.setUTC .time (Spec.clipNumber .nan) [.fin false 5 0] = some 5 := by decide +kernel
 
 end OttoVerif.C12.Thm
